@@ -47,7 +47,7 @@ def enc_uri(u):
     return "None" if u is None else f"(Some {enc.s(u)})"
 
 
-LABELS = ["a", "b", "c", 1, 2, "B", "spk", 10]
+LABELS = ["a", 0, "b", 1, "c", 2, "B", "spk", 10, ""]
 TRACKS = ["_", "x", "y", 0, 1, "A", "B", "0"]
 URIS = [None, "u1", "file2"]
 
